@@ -273,14 +273,19 @@ def OrientedEdges (ts : List Tri) : Prop := ∀ e ∈ dirEdges ts, (dirEdges ts)
 /-- Triangles reachable from the seeds by crossing shared (undirected) edges, `n` rounds. -/
 def adjacent (s t : Tri) : Bool := (triEdges s).any fun e => (triEdges t).contains (swap e) || (triEdges t).contains e
 
-def reach (ts : List Tri) : Nat → List Tri → List Tri
-  | 0, seen => seen
-  | n + 1, seen => reach ts n (seen ++ ts.filter fun t => !seen.contains t && seen.any fun s => adjacent s t)
+/-- Breadth-first search over the adjacency graph: what is left of `unvisited` after exhausting
+the `frontier` (at most `fuel` rounds). -/
+def reachF : Nat → List Tri → List Tri → List Tri
+  | 0, _, unvisited => unvisited
+  | n + 1, frontier, unvisited =>
+    if frontier.isEmpty then unvisited else
+    let p := unvisited.partition fun t => frontier.any fun s => adjacent s t
+    reachF n p.1 p.2
 
 def connected (ts : List Tri) : Bool :=
   match ts with
   | [] => false
-  | t :: _ => ts.all (reach ts ts.length [t]).contains
+  | t :: r => (reachF ts.length [t] r).isEmpty
 
 /-- The link of a boundary vertex must be one open path: its edges are a cycle with one edge
 removed, i.e. adding the closing edge gives a `fanCycle`.  `closing` = (last, first). -/
@@ -363,6 +368,26 @@ def floaterRow [Add α] [Mul α] [Neg α] [OfNat α 0] [OfNat α 1] (nbs : List 
 
 /-- `Σ weights` (the Go code panics unless `|Σ − 1| ≤ 1e-4` and every weight is `≥ 0`). -/
 def totalWeight [Add α] [OfNat α 0] (nbs : List (Nb α)) : α := nbs.foldl (fun s nb => s + nb.weight) 0
+
+/-- The `neighbors` map of `floater97`: all other corners of the triangles at `c`, each once. -/
+def vertNbrs (ts : List Tri) (c : Nat) : List Nat :=
+  ((ts.filter fun t => (triVerts t).contains c).flatMap fun t => (triVerts t).filter (· != c)).eraseDups
+
+/-- The neighbour list of the centre `c` as the loop of `floater97` sees it; `none` when an edge
+weight is missing (Go panics). -/
+def nbList (ts : List Tri) (bpos : Nat → Option (V2 α)) (w : Nat → Nat → Option α) (c : Nat) : Option (List (Nb α)) :=
+  (vertNbrs ts c).mapM fun n =>
+    match w c n with
+    | none => none
+    | some wt => match bpos n with
+      | some p => some (Nb.fixed p wt)
+      | none => some (Nb.var n wt)
+
+/-- All rows of the system: one per vertex without a boundary position. -/
+def floaterSystem [Add α] [Mul α] [Neg α] [OfNat α 0] [OfNat α 1] (ts : List Tri) (bpos : Nat → Option (V2 α))
+    (w : Nat → Nat → Option α) : Option (List (Nat × Row α)) :=
+  ((verts ts).filter fun v => (bpos v).isNone).mapM fun c =>
+    (nbList ts bpos w c).map fun nbs => (c, floaterRow nbs)
 
 /-- Left-hand side minus right-hand side of the row at the solution `x` (x-coordinate if
 `c = false`, else y), centre `i`. -/
@@ -587,6 +612,14 @@ def triDisjoint [Sub α] [Mul α] [OfNat α 0] [LE α] [DecidableLE α] (s t : T
   sepBy s.a s.b t || sepBy s.b s.c t || sepBy s.c s.a t ||
   sepBy t.a t.b s || sepBy t.b t.c s || sepBy t.c t.a s
 
+/-- The bounding boxes are strictly separated along an axis (cheap prefilter). -/
+def bboxSep [LT α] [DecidableLT α] (s t : Tri2 α) : Bool :=
+  decide (max3 s.a.x s.b.x s.c.x < min3 t.a.x t.b.x t.c.x) || decide (max3 t.a.x t.b.x t.c.x < min3 s.a.x s.b.x s.c.x) ||
+  decide (max3 s.a.y s.b.y s.c.y < min3 t.a.y t.b.y t.c.y) || decide (max3 t.a.y t.b.y t.c.y < min3 s.a.y s.b.y s.c.y)
+
+def triDisjointF [Sub α] [Mul α] [OfNat α 0] [LT α] [DecidableLT α] [LE α] [DecidableLE α] (s t : Tri2 α) : Bool :=
+  bboxSep s t || triDisjoint s t
+
 def pairwiseB {β} (f : β → β → Bool) : List β → Bool
   | [] => true
   | x :: r => r.all (f x) && pairwiseB f r
@@ -600,7 +633,7 @@ def Tri2.inBox [LE α] [DecidableLE α] (lo hi : α) (t : Tri2 α) : Bool :=
 /-- All triangles strictly counter-clockwise, pairwise interior-disjoint, all corners in
 `[lo,hi]²`. -/
 def uvValidCCW [Sub α] [Mul α] [OfNat α 0] [LT α] [DecidableLT α] [LE α] [DecidableLE α] (lo hi : α) (ts : List (Tri2 α)) : Bool :=
-  ts.all (fun t => decide (0 < t.orient)) && pairwiseB triDisjoint ts && ts.all (Tri2.inBox lo hi)
+  ts.all (fun t => decide (0 < t.orient)) && pairwiseB triDisjointF ts && ts.all (Tri2.inBox lo hi)
 
 /-- The checker: the layout is valid with all triangles counter-clockwise or all clockwise. -/
 def uvValid [Sub α] [Mul α] [OfNat α 0] [LT α] [DecidableLT α] [LE α] [DecidableLE α] (lo hi : α) (ts : List (Tri2 α)) : Bool :=
